@@ -396,7 +396,7 @@ func init() {
 	})
 	sp := NewSpace(p, "sigops", c06Check)
 	p.Run = func(r *rep.Run, thorough bool) {
-		if _, err := scriptref.Anchor("/repo/bscript/interpreter/data/script_tests.json"); err != nil {
+		if _, err := scriptref.Anchor(vectorsDir() + "/script_tests.json"); err != nil {
 			r.HarnessError("script reference failed its anchor: " + err.Error())
 			return
 		}
